@@ -782,6 +782,10 @@ class VHDXInspector(FileInspector):
         # Make sure we found the metadata region by checking the signature
         sig, reserved, count = struct.unpack('<8sHH', meta_buffer[:12])
         if sig != b'metadata':
+            # We are giving up on this region: stop capturing it, so that
+            # what we hold (and whether we count as complete) does not
+            # depend on how much of it the current chunk happened to bring
+            self.region('metadata').length = len(meta_buffer)
             raise ImageFormatError(
                 'Invalid signature for metadata region: %r' % sig)
 
@@ -809,6 +813,7 @@ class VHDXInspector(FileInspector):
                 if item_offset < entries_size:
                     # Likewise, an item cannot live inside the entry table
                     # that we had to read in order to find it
+                    self.region('metadata').length = len(meta_buffer)
                     raise ImageFormatError(
                         'Metadata item offset %x overlaps the table' % (
                             item_offset))
